@@ -280,7 +280,7 @@ def run(tier, seed):
                 'associations between subtypes) is ingested and the recorded Subgraph compared with the model; get_model is then '
                 'run against what was exported under EVERY permutation of the answer rows (rotations + reversal above 4 rows); '
                 'every attack-graph state of the C09 search is ingested and compared node by node and edge by edge')
-    depth, K = (3, 1) if tier == 'quick' else (4, 1)
+    depth, K = (3, 1) if tier == 'quick' else (5, 1)
     scratch = common.Result(PROP, tier, seed, 'model_checking')
     from . import c18
     hists = c18.distinct_histories('OPS', depth, K, scratch, seed)
